@@ -180,7 +180,12 @@ class AnfTransformer(transformer.Base):
     if isinstance(node, ast.keyword):
       node.value = self._ensure_node_in_anf(parent, field, node.value)
       return node
-    if isinstance(node, (ast.Starred, ast.withitem, ast.Slice)):
+    if isinstance(node, ast.withitem):
+      # Only the context expression is a value; optional_vars is a target.
+      node.context_expr = self._ensure_node_in_anf(
+          parent, field, node.context_expr)
+      return node
+    if isinstance(node, (ast.Starred, ast.Slice)):
       # These nodes aren't really extractable in their own right, but their
       # subnodes might be.  Propagate the parent and field name to the child
       # nodes, instead of querying the configuration for children of, e.g.,
